@@ -3,6 +3,8 @@ package main
 import (
 	"fmt"
 	"go/ast"
+	"go/constant"
+	"go/token"
 	"go/types"
 	"strings"
 
@@ -28,7 +30,6 @@ var catchablePanicTypes = map[string]bool{"*exception": true, "ottoError": true,
 // Reviewed foreign panics: key = function | operand type | context descriptor.
 var panicForeignReviewed = map[string]string{
 	"ast.Walk|string|default-of-typeswitch(ast.Node)":                                           "dead by EXH-walk: every concrete ast.Node type has a case",
-	"(*cloner).property|error(Errorf)|default-of-typeswitch(interface{})":                       "dead by PROP-PAYLOAD: property.value is Value or propertyGetSet at every construction site",
 	"(*runtime).cmplEvaluateNodeExpression|string|":                                             "defensive: getIdentifierReference returns a non-nil reference on every path (it ends in a composite literal)",
 	"(*runtime).cmplEvaluateNodeObjectLiteral|string|default-of-switch(string:.kind)":           "dead by TAB-propkind: the parser writes only value/get/set into Property.Kind",
 	"(*runtime).cmplEvaluateNodeUnaryExpression|string|after-switch(token.Token:.operator)":     "every unary operator the parser emits has an arm (TAB-ops); the arm of typeof falls through to this panic only for an operand of an internal kind (empty / result / reference), which statements never hand to expressions (LABEL-consume, EARLY-guards: no break or continue result escapes a function)",
@@ -42,17 +43,13 @@ var panicForeignReviewed = map[string]string{
 	"parser.(*parser).error|error(Errorf)|default-of-typeswitch(interface{})":                   "internal API misuse: callers pass int or file.Idx (all call sites are in package parser)",
 	"parser.parseStringLiteral|string|":                                                         "the scanner only accepts a literal whose every backslash is followed by a character (scanString/scanEscape)",
 	"parser.parseStringLiteral|string|#2":                                                       "a \\u/\\x escape has at most 4 hex digits: the value cannot exceed 0xFFFF",
-	"testObjectCoercible|string|default-of-switch(valueKind:.kind)":                             "covers every kind except the completion record valueResult, which is never passed as a this/argument value",
-	"(*objectStash).createBinding|string|":                                                      "stasher protocol: callers test hasBinding first",
-	"(*dclStash).createBinding|error(Errorf)|":                                                  "stasher protocol: callers test hasBinding first",
+	"(*objectStash).createBinding|string|":                                                      "stasher protocol: every call is on the not-bound side of hasBinding (STASH-protocol)",
+	"(*dclStash).createBinding|error(Errorf)|":                                                  "stasher protocol: every call is on the not-bound side of hasBinding (STASH-protocol)",
 	"getStashProperties|string|default-of-typeswitch(stasher)":                                  "covers the three stasher implementations (debugger helper, host-side)",
 	"arrayDefineOwnProperty|string|":                                                            "array length is a data property by construction (newArrayObject) and 15.4.5.1 never lets it become an accessor",
-	"sameValue|string|default-of-switch(valueKind:.kind)":                                       "operands are script-visible values: one of the six ES5 kinds",
-	"strictEqualityComparison|string|default-of-switch(valueKind:.kind)":                        "operands are script-visible values: one of the six ES5 kinds",
 	"(Value).bool|string|":                                                                      "dead by REPR-value: every payload type of a boolean/number/string Value is handled",
 	"(Value).float64|error(Errorf)|":                                                            "dead by REPR-value",
 	"(Value).string|error(Errorf)|":                                                             "dead by REPR-value",
-	"toPrimitive|string|default-of-switch(valueKind:.kind)":                                     "operands are script-visible values: one of the six ES5 kinds",
 }
 
 func panicOperandType(p *ssa.Panic) (string, types.Type) {
@@ -169,6 +166,14 @@ func rulePanicForeign(c *Ctx, r *R) {
 					r.ok("dead-arm:"+key, site, why)
 					continue
 				}
+				if why := c.kindSwitchExhaustive(p); why != "" {
+					r.ok("kind-exhaustive:"+key, site, why)
+					continue
+				}
+				if why := payloadExhausted(p); why != "" {
+					r.ok("payload-exhaustive:"+key, site, why)
+					continue
+				}
 				if why, ok := panicForeignReviewed[key]; ok {
 					r.ok("reviewed:"+key, site, why)
 					continue
@@ -197,6 +202,120 @@ func deadArmReason(ctx string) string {
 		return "default arm of the evaluator's switch over every compiled node type: dead by EXH-node2eval"
 	case strings.HasPrefix(ctx, "default-of-typeswitch(ast.Declaration)"):
 		return "default arm over the two Declaration types: dead (only FunctionDeclaration and VariableDeclaration implement it; checked by EXH-decl in EXH-ast2node)"
+	}
+	return ""
+}
+
+// kindSwitchExhaustive: the panic is the default arm of a `switch <Value>.kind` whose explicit cases name all six kinds
+// a script can produce (undefined, null, number, string, boolean, object). The arm is then reachable only for the
+// interpreter's internal kinds (empty, result, reference), which statements and references never hand to value
+// operations (LABEL-consume, EARLY-guards, REF-getvalue): a defensive arm wherever the switch is written.
+func (c *Ctx) kindSwitchExhaustive(p *ssa.Panic) string {
+	node := c.nodeAt(p.Pos())
+	if node == nil {
+		return ""
+	}
+	info := c.InfoFor(node)
+	var child ast.Node = node
+	for par := c.ParentOf(node); par != nil; child, par = par, c.ParentOf(par) {
+		switch x := par.(type) {
+		case *ast.FuncDecl, *ast.FuncLit:
+			return ""
+		case *ast.CaseClause:
+			if x.List != nil {
+				return ""
+			}
+			sw, ok := c.ParentOf(c.ParentOf(x)).(*ast.SwitchStmt)
+			if !ok || sw.Tag == nil || !typeIs(info.TypeOf(sw.Tag), ottoPath, "valueKind") {
+				return ""
+			}
+			if sel, ok := unparen(sw.Tag).(*ast.SelectorExpr); !ok || sel.Sel.Name != "kind" || !typeIs(info.TypeOf(sel.X), ottoPath, "Value") {
+				return ""
+			}
+			have := map[string]bool{}
+			for _, st := range sw.Body.List {
+				for _, e := range st.(*ast.CaseClause).List {
+					if tv, ok := info.Types[e]; ok && tv.Value != nil {
+						for _, nm := range []string{"valueUndefined", "valueNull", "valueNumber", "valueString", "valueBoolean", "valueObject"} {
+							if k, ok := c.Otto().Types.Scope().Lookup(nm).(*types.Const); ok && constant.Compare(k.Val(), token.EQL, tv.Value) {
+								have[nm] = true
+							}
+						}
+					}
+				}
+			}
+			if len(have) == 6 {
+				return "default arm of a switch over Value.kind that names all six script-visible kinds: reachable only for the interpreter's internal kinds, which are never operands"
+			}
+			return ""
+		}
+		_ = child
+	}
+	return ""
+}
+
+// payloadFacts: the dynamic types a payload field can hold, each established by the rule named.
+var payloadFacts = map[string]struct {
+	types []string
+	rule  string
+}{
+	"property.value": {[]string{"Value", "propertyGetSet"}, "PROP-PAYLOAD"},
+}
+
+// payloadExhausted: the panic is reached only after comma-ok assertions (or the arms of a type switch, which go/ssa
+// lowers to the same chain) of one operand - a load of a payload field with a known type set - have failed for every
+// type of the set: dead by the rule that establishes the set, however the tests are written.
+func payloadExhausted(p *ssa.Panic) string {
+	fn := p.Parent()
+	failed := map[string]map[string]bool{} // field -> types whose failed branch dominates the panic
+	for _, b := range fn.Blocks {
+		iff, ok := b.Instrs[len(b.Instrs)-1].(*ssa.If)
+		if !ok {
+			continue
+		}
+		ex, ok := iff.Cond.(*ssa.Extract)
+		if !ok || ex.Index != 1 {
+			continue
+		}
+		ta, ok := ex.Tuple.(*ssa.TypeAssert)
+		if !ok || !ta.CommaOk {
+			continue
+		}
+		field := ""
+		switch x := ta.X.(type) {
+		case *ssa.UnOp:
+			if nt, f := fieldOfAddr(x.X); nt != nil {
+				field = nt.Obj().Name() + "." + f.Name()
+			}
+		case *ssa.Field:
+			if nt, ok := x.X.Type().(*types.Named); ok {
+				if st, ok := nt.Underlying().(*types.Struct); ok {
+					field = nt.Obj().Name() + "." + st.Field(x.Field).Name()
+				}
+			}
+		}
+		if _, known := payloadFacts[field]; !known {
+			continue
+		}
+		no := b.Succs[1]
+		if (len(no.Preds) == 1 && (no == p.Block() || no.Dominates(p.Block()))) || (b.Dominates(p.Block()) && !reaches(b.Succs[0], p.Block(), map[*ssa.BasicBlock]bool{b: true})) {
+			if failed[field] == nil {
+				failed[field] = map[string]bool{}
+			}
+			failed[field][typeStr(ta.AssertedType)] = true
+		}
+	}
+	for field, got := range failed {
+		fact := payloadFacts[field]
+		all := true
+		for _, t := range fact.types {
+			if !got[t] {
+				all = false
+			}
+		}
+		if all {
+			return fmt.Sprintf("reached only when %s holds none of %v: dead by %s (every store into that field has one of these types)", field, fact.types, fact.rule)
+		}
 	}
 	return ""
 }
